@@ -208,11 +208,11 @@ pub fn drive(vectors: Option<&str>, corpus: &str, seed: u64, out: &str, thorough
         let Ok(true) = r else {
           w.put(&json!({"id": format!("{path}#h{h}s{step}"), "lang": util::lang_name(*l), "panic": true,
             "before": bytes(before.as_bytes()), "cw": char_widths(&before), "edit": {"pos": pos, "del": del, "ins": bytes(ins.as_bytes())},
-            "after": [], "inc": [], "fresh": [], "fresh_error": true, "events": events, "text": before.chars().take(200).collect::<String>()}));
+            "after": [], "inc": [], "fresh": [], "fresh_error": true, "inc_error": false, "events": events, "text": before.chars().take(200).collect::<String>()}));
           break;
         };
         let after = g.source().to_string();
-        let (inc, _) = dump(&g);
+        let (inc, inc_err) = dump(&g);
         let fresh_g = l.ast_grep(&after);
         let (fresh, fresh_err) = dump(&fresh_g);
         if fresh_err {
@@ -224,7 +224,7 @@ pub fn drive(vectors: Option<&str>, corpus: &str, seed: u64, out: &str, thorough
         w.put(&json!({"id": format!("{path}#h{h}s{step}"), "lang": util::lang_name(*l), "panic": false,
           "before": bytes(before.as_bytes()), "cw": char_widths(&before), "cwAfter": char_widths(&after),
           "edit": {"pos": pos, "del": del, "ins": bytes(ins.as_bytes())},
-          "after": bytes(after.as_bytes()), "inc": inc, "fresh": fresh, "fresh_error": fresh_err, "events": events,
+          "after": bytes(after.as_bytes()), "inc": inc, "fresh": fresh, "fresh_error": fresh_err, "inc_error": inc_err, "events": events,
           "text": before.chars().take(200).collect::<String>(), "ins_text": ins}));
       }
     }
